@@ -665,26 +665,33 @@ def validation(cx, chk, cfg, F):
             if not (isinstance(rv, tuple) and rv[0] == "agg" and rv[2][1] == "Ok"):
                 continue
             ok_paths += 1
-            facts = [(c, t) for c, t, e in cond_facts(p) if e["depth"] == 0]
-            fp = None
+            # the ratio may be validated in a helper: facts of every depth count, but only comparisons of the builder's own ratio value
+            facts = [(c, t) for c, t, e in cond_facts(p)]
+            cands = []
             for c, t in facts:
                 if isinstance(c, tuple) and c[0] == "bin" and c[1] in ("Lt", "Le", "Gt", "Ge") and any("f64" in str(x) for x in (c[2], c[3]) if isinstance(x, tuple) and x[0] == "const"):
-                    fp = c[2] if not (isinstance(c[2], tuple) and c[2][0] == "const") else c[3]
-            if fp is None:
+                    x = c[2] if not (isinstance(c[2], tuple) and c[2][0] == "const") else c[3]
+                    if x not in cands and any(t_[0] == "param" and t_[1] == 1 for t_ in subterms(x)):
+                        cands.append(x)    # a value read out of the builder (self)
+            if not cands:
                 bad = "a successful path does not compare the false-positive ratio with its bounds"
                 continue
-            lower = upper = False
-            for c, t in facts:
-                if not (isinstance(c, tuple) and c[0] == "bin" and c[1] in ("Lt", "Le", "Gt", "Ge") and fp in (c[2], c[3])):
-                    continue
-                if not t:
-                    continue    # a comparison that evaluated false proves nothing about NaN
-                op = c[1] if c[2] == fp else {"Lt": "Gt", "Gt": "Lt", "Le": "Ge", "Ge": "Le"}[c[1]]
-                if op in ("Gt", "Ge"):
-                    lower = True
-                if op in ("Lt", "Le"):
-                    upper = True
-            if not (lower and upper):
+            verdicts = []
+            for fp in cands:
+                lower = upper = False
+                for c, t in facts:
+                    if not (isinstance(c, tuple) and c[0] == "bin" and c[1] in ("Lt", "Le", "Gt", "Ge") and fp in (c[2], c[3])):
+                        continue
+                    if not t:
+                        continue    # a comparison that evaluated false proves nothing about NaN
+                    op = c[1] if c[2] == fp else {"Lt": "Gt", "Gt": "Lt", "Le": "Ge", "Ge": "Le"}[c[1]]
+                    if op in ("Gt", "Ge"):
+                        lower = True
+                    if op in ("Lt", "Le"):
+                        upper = True
+                verdicts.append((lower, upper))
+            if not any(lo and up for lo, up in verdicts):
+                lower = any(lo for lo, up in verdicts)
                 bad = "the false-positive ratio is accepted on a path where no ordered comparison with its %s bound evaluated true: NaN (which fails every comparison) passes the validation" % (
                     "lower" if not lower else "upper")
         if bad:
